@@ -5,6 +5,8 @@ package main
 
 func init() {
 	streams["chain"] = &stream{gen: func(r *rng) string { return genChain(r, chainOpts{}).encode() }, run: runChain}
+	// static: more literals / cacheable-family providers / init functions, longer sessions (C06, C10)
+	streams["static"] = &stream{gen: func(r *rng) string { return genChain(r, chainOpts{moreStatic: true}).encode() }, run: runChain}
 }
 
 type chainOpts struct {
@@ -13,6 +15,7 @@ type chainOpts struct {
 	moreWrap   bool
 	moreFall   bool
 	allowEdits bool
+	moreStatic bool
 }
 
 func tcOf(i int) int { return pool[i].tc }
@@ -62,7 +65,7 @@ func genChain(r *rng, o chainOpts) *ccase {
 
 	// down side
 	var avail []int // types available downward so far
-	hasInit := !o.noStatic && r.chance(1, 3)
+	hasInit := !o.noStatic && (r.chance(1, 3) || (o.moreStatic && r.chance(1, 2)))
 	if hasInit {
 		c.hasInit = true
 		for k := r.intn(2); k > 0; k-- {
@@ -123,6 +126,9 @@ func genChain(r *rng, o chainOpts) *ccase {
 		p := &cprovider{pid: i + 1}
 		last := i == n-1
 		kind := r.intn(100)
+		if o.moreStatic && !invokeAdded && r.chance(1, 2) {
+			kind = r.intn(22) // literal or static candidate
+		}
 		static := false
 		switch {
 		case last:
@@ -262,7 +268,7 @@ func genChain(r *rng, o chainOpts) *ccase {
 					p.failmask = r.intn(256)
 				}
 			}
-			if !o.noStatic && r.chance(1, 12) {
+			if !o.noStatic && (r.chance(1, 12) || (o.moreStatic && r.chance(1, 3))) {
 				switch r.intn(4) {
 				case 0:
 					p.annots |= aMemoize
@@ -369,6 +375,9 @@ func genChain(r *rng, o chainOpts) *ccase {
 	}
 	// session
 	nSteps := 1 + r.intn(3)
+	if o.moreStatic {
+		nSteps = 2 + r.intn(4)
+	}
 	for k := 0; k < nSteps; k++ {
 		if hasInit && r.chance(1, 3) {
 			c.steps = append(c.steps, 0)
